@@ -85,6 +85,14 @@ def rand_table(r, nmax):
     if r.random() < 0.5:
         tb["lat"] = [r.randint(-20, 20) for _ in range(n)]
         tb["lon"] = [r.randint(-40, 40) for _ in range(n)]
+    if r.random() < 0.25:
+        # axis columns with holes: a run of rows (often everything one window selects) without depth / position
+        a = r.randrange(n)
+        b = r.randint(a, n - 1) if r.random() < 0.7 else n - 1
+        for k in ("z", "lat", "lon"):
+            if tb[k] and (k == "z" or r.random() < 0.7):
+                for i in range(a, b + 1):
+                    tb[k][i] = NA
     if r.random() < 0.12:
         tb["hastime"] = False        # the stream gets no time array: no windows possible
     elif n >= 2 and r.random() < 0.3:
